@@ -414,13 +414,15 @@ func checkC06(R *Run) {
 	cut := map[Edge]bool{}
 	nGuard := 0
 	factEdges(fn, func(e Edge, f Fact) {
-		if f.Kind != "truth" {
-			return
-		}
-		if recv, p, _, ok := authorizeCall(f.V); ok && p == 23 && cellOf(recv) == targetCell {
-			nGuard++
-			if !f.Holds {
-				cut[e] = true
+		for _, pf := range P.expandFact(f, isAuthorizePrim, 0) {
+			if pf.kind != "truth" || len(pf.args) != 2 || pf.args[0] == nil {
+				continue
+			}
+			if k, ok := constInt(pf.args[1]); ok && k == 23 && cellOf(pf.args[0]) == targetCell {
+				nGuard++
+				if !pf.holds {
+					cut[e] = true
+				}
 			}
 		}
 	})
